@@ -824,12 +824,13 @@ def run(ctx):
                 a, b = runs[s0], runs[s0 + 1]
                 if "error" in a or "error" in b or a["warn_contactfull"] or b["warn_contactfull"]:
                     continue
-                if active_seq(a) != active_seq(b):
-                    sa, sb = set(active_seq(a)), set(active_seq(b))
+                # (the *order* may differ: contactcompare sorts mid-phase contacts by the type-ordered (geom[0], geom[1]),
+                #  which is not the all-to-all push order; only determinism of the order is claimed)
+                sa, sb = sorted(active_seq(a)), sorted(active_seq(b))
+                if sa != sb:
                     what = ("active contacts differ between mid-phase enabled and disabled: only with mid-phase %s, only without %s"
-                            % (sorted(sa - sb)[:3], sorted(sb - sa)[:3])) if sa != sb else \
-                        "the order of the contact list differs between mid-phase enabled and disabled"
-                    fail("c14:midphase-drops-pair" if sa != sb else "c14:order-midphase", what + " [" + mt["what"] + "]",
+                            % (sorted(set(sa) - set(sb))[:3], sorted(set(sb) - set(sa))[:3]))
+                    fail("c14:midphase-drops-pair", what + " [" + mt["what"] + "]",
                          {"what": mt["what"], "model_lines": mt["lines"], "state": mt["states"][s0 // nf], "flags": mt["flags"]})
     # tie: model vs engine, scene by scene
     rcm, mouts, merr = ctx.run_lines([drv], mlines)
